@@ -2,6 +2,16 @@
   Props/C19.lean — conversions and re-alignment never move data to the wrong name.
   All theorems are for arrays of any rank and any sizes (induction on the shape), over the
   model in Model/C19.lean.
+
+  Main results
+    unravel_ravel / ravel_unravel        row-major index arithmetic, any rank and sizes
+    toFunsor_sem                         which axis receives which name; value at every named point
+    toFunsor_rejects_unnamed             the ValueError branch (un-named batch axis of size != 1)
+    toFunsor_empty_d2n_witness           why `dim_to_name != {}` is a hypothesis
+    toData_toFunsor_roundtrip            to_data(to_funsor(x)) = x up to leading size-1 batch axes
+    align_sem                            Tensor.align: inputs order, sizes, value at every point
+    alignTensor_sem                      align_tensor (permute, un-squeeze, expand): value at every point
+    materialize_sem                      substituting aranges is the identity on the denotation
 -/
 import FunsorVerif.Model.C19
 namespace FV.Props.C19
@@ -892,6 +902,730 @@ theorem toData_toFunsor_roundtrip (x : Arr α) (bs es : List Nat) (dtype : Optio
       · rw [toData_steps f (swapPairs d2n) hne hp hnegs data1 h1 _ h2 data2 h3' d0 rest h4 _ h5]
         exact h6
       · rw [h6s, hout]; exact (List.drop_append_of_le_length hk1).symm
+
+
+/-! ### permutations of named axes -/
+
+theorem pos_inj_of_mem {β : Type} [DecidableEq β] (K : List β) (a b : β) (ha : a ∈ K) (hb : b ∈ K)
+    (h : pos a K = pos b K) : a = b := by
+  have h1 := getElem_pos a K (pos_lt_of_mem a K ha)
+  have h2 := getElem_pos b K (pos_lt_of_mem b K hb)
+  simp only [h] at h1
+  exact h1.symm.trans h2
+
+/-- The axis permutation built by `Tensor.align` / `align_tensor`: new axis `j` is old axis
+    `pos K'[j] K`; event axes stay. -/
+def axesPerm (K K' : List String) (e : Nat) : List Nat :=
+  K'.map (fun d => pos d K) ++ List.range' K'.length e
+
+theorem axesPerm_length (K K' : List String) (e : Nat) : (axesPerm K K' e).length = K'.length + e := by
+  simp [axesPerm]
+
+theorem axesPerm_nodup (K K' : List String) (e : Nat) (hK' : K'.Nodup) (hsub : ∀ a ∈ K', a ∈ K)
+    (hlen : K.length ≤ K'.length) : (axesPerm K K' e).Nodup := by
+  unfold axesPerm
+  rw [List.nodup_append]
+  refine ⟨?_, List.nodup_range', ?_⟩
+  · rw [List.Nodup, List.pairwise_map]
+    exact List.Pairwise.imp_of_mem (fun {a b} ha hb hab h => hab (pos_inj_of_mem K a b (hsub a ha) (hsub b hb) h)) hK'
+  · intro a ha b hb
+    simp only [List.mem_map] at ha
+    obtain ⟨k, hk, rfl⟩ := ha
+    have := pos_lt_of_mem k K (hsub k hk)
+    simp only [List.mem_range'_1] at hb
+    omega
+
+
+theorem getD_map_append_left (K : List String) (h : String → Nat) (es : List Nat) (k : String)
+    (hk : k ∈ K) : (K.map h ++ es).getD (pos k K) 0 = h k := by
+  have hlt := pos_lt_of_mem k K hk
+  rw [List.getD_eq_getElem?_getD, List.getElem?_append_left (by simpa using hlt),
+    List.getElem?_map, List.getElem?_eq_getElem hlt, getElem_pos k K hlt]
+  rfl
+
+theorem getD_append_right (v es : List Nat) (t : Nat) (ht : t < es.length) :
+    (v ++ es).getD (v.length + t) 0 = es[t] := by
+  rw [List.getD_eq_getElem?_getD, List.getElem?_append_right (by omega)]
+  simp [ht]
+
+/-- (c) shape/indices of the permuted array: `gather (old) perm = new`. -/
+theorem gather_axesPerm (K K' : List String) (h : String → Nat) (es : List Nat)
+    (hsub : ∀ a ∈ K', a ∈ K) (hlen : K'.length = K.length) :
+    gather (K.map h ++ es) (axesPerm K K' es.length) = K'.map h ++ es := by
+  unfold gather axesPerm
+  rw [List.map_append]
+  congr 1
+  · rw [List.map_map]
+    apply List.map_congr_left
+    intro k hk
+    exact getD_map_append_left K h es k (hsub k hk)
+  · apply List.ext_getElem
+    · simp
+    · intro t h1 h2
+      simp only [List.getElem_map, List.getElem_range']
+      have := getD_append_right (K.map h) es t h2
+      simp only [List.length_map] at this
+      rw [hlen, Nat.one_mul]; exact this
+
+theorem axesPerm_getElem_left (K K' : List String) (e : Nat) (j : Nat) (hj : j < K'.length) :
+    (axesPerm K K' e)[j]'(by rw [axesPerm_length]; omega) = pos K'[j] K := by
+  unfold axesPerm
+  rw [List.getElem_append_left (by simpa using hj)]
+  simp
+
+theorem axesPerm_getElem_right (K K' : List String) (e : Nat) (t : Nat) (ht : t < e) :
+    (axesPerm K K' e)[K'.length + t]'(by rw [axesPerm_length]; omega) = K'.length + t := by
+  unfold axesPerm
+  rw [List.getElem_append_right (by simp)]
+  simp
+
+/-- (b) reading the permuted array at the new index list reads the old array at the old one. -/
+theorem gather_invPerm_axesPerm (K K' : List String) (g : String → Nat) (ev : List Nat)
+    (hK : K.Nodup) (hK' : K'.Nodup) (hiff : ∀ a, a ∈ K' ↔ a ∈ K) (hlen : K'.length = K.length) :
+    gather (K'.map g ++ ev) (invPerm (axesPerm K K' ev.length)) = K.map g ++ ev := by
+  have hnd := axesPerm_nodup K K' ev.length hK' (fun a ha => (hiff a).mp ha) (by omega)
+  unfold gather invPerm
+  rw [axesPerm_length, List.map_map]
+  apply List.ext_getElem
+  · simp [hlen]
+  · intro i h1 h2
+    simp only [List.length_map, List.length_range] at h1
+    simp only [List.getElem_map, List.getElem_range, Function.comp_def]
+    by_cases hi : i < K.length
+    · -- a named axis
+      have hmem : K[i] ∈ K' := (hiff _).mpr (List.getElem_mem _)
+      have hj := pos_lt_of_mem K[i] K' hmem
+      have hval : (axesPerm K K' ev.length)[pos K[i] K']'(by rw [axesPerm_length]; omega) = i := by
+        rw [axesPerm_getElem_left K K' ev.length _ hj, getElem_pos K[i] K' hj, pos_getElem K i hi hK]
+      have hpos : pos i (axesPerm K K' ev.length) = pos K[i] K' := by
+        have := pos_getElem (axesPerm K K' ev.length) (pos K[i] K')
+          (by rw [axesPerm_length]; omega) hnd
+        rw [hval] at this; exact this
+      rw [hpos, getD_map_append_left K' g ev K[i] hmem, List.getElem_append_left (by simpa using hi)]
+      simp
+    · -- an event axis
+      have ht : i - K.length < ev.length := by omega
+      have hi' : i = K'.length + (i - K.length) := by omega
+      have hval : (axesPerm K K' ev.length)[K'.length + (i - K.length)]'(by
+          rw [axesPerm_length]; omega) = i := by
+        rw [axesPerm_getElem_right K K' ev.length _ ht]; omega
+      have hpos : pos i (axesPerm K K' ev.length) = K'.length + (i - K.length) := by
+        have := pos_getElem (axesPerm K K' ev.length) (K'.length + (i - K.length))
+          (by rw [axesPerm_length]; omega) hnd
+        rw [hval] at this; exact this
+      have := getD_append_right (K'.map g) ev (i - K.length) ht
+      simp only [List.length_map] at this
+      rw [hpos, this, List.getElem_append_right (by simp; omega)]
+      simp
+
+theorem axesPerm_isPerm (K K' : List String) (e : Nat)
+    (hK : K.Nodup) (hK' : K'.Nodup) (hiff : ∀ a, a ∈ K' ↔ a ∈ K) (hlen : K'.length = K.length) :
+    isPerm (axesPerm K K' e) (K.length + e) = true := by
+  unfold isPerm
+  simp only [Bool.and_eq_true, beq_iff_eq, List.all_eq_true, decide_eq_true_eq, List.mem_range]
+  refine ⟨⟨by rw [axesPerm_length, hlen], ?_⟩, ?_⟩
+  · intro a ha
+    unfold axesPerm at ha
+    simp only [List.mem_append, List.mem_map, List.mem_range'_1] at ha
+    rcases ha with ⟨k, hk, rfl⟩ | ha
+    · have := pos_lt_of_mem k K ((hiff k).mp hk); omega
+    · omega
+  · intro i hi
+    by_cases hi' : i < K.length
+    · have hmem : K[i] ∈ K' := (hiff _).mpr (List.getElem_mem _)
+      have hj := pos_lt_of_mem K[i] K' hmem
+      have hval : (axesPerm K K' e)[pos K[i] K']'(by rw [axesPerm_length]; omega) = i := by
+        rw [axesPerm_getElem_left K K' e _ hj, getElem_pos K[i] K' hj, pos_getElem K i hi' hK]
+      rw [← hval]; exact List.getElem_mem _
+    · have ht : i - K.length < e := by omega
+      have hval : (axesPerm K K' e)[K'.length + (i - K.length)]'(by
+          rw [axesPerm_length]; omega) = i := by
+        rw [axesPerm_getElem_right K K' e _ ht]; omega
+      rw [← hval]; exact List.getElem_mem _
+
+
+/-! ### OrderedDict.update -/
+
+theorem oset_same : ∀ (d : Inputs) (k : String) (v : Nat), (d.map (·.1)).Nodup → (k, v) ∈ d →
+    oset d k v = d
+  | [], _, _, _, h => by simp at h
+  | (k', v') :: d, k, v, hn, h => by
+      simp only [List.map_cons, List.nodup_cons] at hn
+      simp only [oset]
+      by_cases hk : k' = k
+      · simp only [hk, if_true]
+        simp only [List.mem_cons, Prod.mk.injEq] at h
+        rcases h with h | h
+        · rw [h.2]
+        · exact absurd (List.mem_map_of_mem (f := (·.1)) h) (hk ▸ hn.1)
+      · simp only [hk, if_false]
+        simp only [List.mem_cons, Prod.mk.injEq] at h
+        rcases h with h | h
+        · exact absurd h.1.symm hk
+        · rw [oset_same d k v hn.2 h]
+
+/-- `d.update(e)` when the two agree on common keys: `d` followed by the new entries of `e`. -/
+theorem oupdate_spec : ∀ (e d : Inputs), (e.map (·.1)).Nodup → (d.map (·.1)).Nodup →
+    (∀ p ∈ e, p.1 ∈ d.map (·.1) → p ∈ d) →
+    oupdate d e = d ++ e.filter (fun p => decide (p.1 ∉ d.map (·.1)))
+  | [], d, _, _, _ => by simp [oupdate]
+  | (k, v) :: e, d, he, hd, hag => by
+      simp only [List.map_cons, List.nodup_cons] at he
+      have hstep : oupdate d ((k, v) :: e) = oupdate (oset d k v) e := by simp [oupdate]
+      rw [hstep]
+      by_cases hk : k ∈ d.map (·.1)
+      · have hmem : (k, v) ∈ d := hag (k, v) (by simp) hk
+        rw [oset_same d k v hd hmem,
+          oupdate_spec e d he.2 hd (fun p hp => hag p (List.mem_cons_of_mem _ hp))]
+        simp [hk]
+      · rw [oset_append d k v hk]
+        have hd' : ((d ++ [(k, v)]).map (·.1)).Nodup := by
+          simp only [List.map_append, List.map_cons, List.map_nil, List.nodup_append]
+          refine ⟨hd, by simp, ?_⟩
+          intro a ha b hb
+          simp only [List.mem_singleton] at hb
+          rintro rfl; exact hk (hb ▸ ha)
+        have hag' : ∀ p ∈ e, p.1 ∈ (d ++ [(k, v)]).map (·.1) → p ∈ d ++ [(k, v)] := by
+          intro p hp hpk
+          simp only [List.map_append, List.map_cons, List.map_nil, List.mem_append,
+            List.mem_singleton] at hpk
+          rcases hpk with hpk | hpk
+          · exact List.mem_append_left _ (hag p (List.mem_cons_of_mem _ hp) hpk)
+          · exact absurd (hpk ▸ List.mem_map_of_mem (f := (·.1)) hp) he.1
+        rw [oupdate_spec e _ he.2 hd' hag']
+        simp only [List.append_assoc, List.singleton_append, List.filter_cons, hk,
+          not_false_eq_true, decide_true, if_true]
+        congr 2
+        apply List.filter_congr
+        intro p hp
+        have hpk : p.1 ≠ k := fun h => he.1 (h ▸ List.mem_map_of_mem (f := (·.1)) hp)
+        simp [hpk]
+
+theorem fromPairs_nodup (l : Inputs) (h : (l.map (·.1)).Nodup) : fromPairs l = l := by
+  unfold fromPairs
+  rw [oupdate_spec l [] h (by simp) (by simp)]
+  simp
+
+theorem lookup_of_mem_keys {β : Type} (k : String) : ∀ (d : List (String × β)), k ∈ d.map (·.1) →
+    ∃ v, lookup k d = some v
+  | [], h => by simp at h
+  | (k', v') :: d, h => by
+      simp only [lookup]
+      by_cases hk : k' = k
+      · exact ⟨v', by simp [hk]⟩
+      · simp only [hk, if_false]
+        simp only [List.map_cons, List.mem_cons] at h
+        rcases h with h | h
+        · exact absurd h.symm hk
+        · exact lookup_of_mem_keys k d h
+
+/-- The `(name, size)` pairs `Tensor.align` builds from `names`. -/
+theorem namePairs_spec (inputs : Inputs) : ∀ (names : List String),
+    (∀ n ∈ names, n ∈ inputs.map (·.1)) →
+    (names.filterMap fun n => (lookup n inputs).map fun s => (n, s)).map (·.1) = names ∧
+    ∀ p ∈ (names.filterMap fun n => (lookup n inputs).map fun s => (n, s)), p ∈ inputs
+  | [], _ => by simp
+  | n :: names, h => by
+      obtain ⟨v, hv⟩ := lookup_of_mem_keys n inputs (h n (by simp))
+      have ih := namePairs_spec inputs names (fun m hm => h m (by simp [hm]))
+      simp only [List.filterMap_cons, hv, Option.map_some, List.map_cons, ih.1, true_and,
+        List.mem_cons, forall_eq_or_imp]
+      exact ⟨lookup_mem n v inputs hv, ih.2⟩
+
+
+/-! ### Tensor.align -/
+
+def sizeOf (d : Inputs) (k : String) : Nat := match lookup k d with | some s => s | none => 0
+
+theorem lookup_of_mem_nodup : ∀ (d : Inputs) (k : String) (v : Nat), (d.map (·.1)).Nodup →
+    (k, v) ∈ d → lookup k d = some v
+  | [], _, _, _, h => by simp at h
+  | (k', v') :: d, k, v, hn, h => by
+      simp only [List.map_cons, List.nodup_cons] at hn
+      simp only [lookup]
+      simp only [List.mem_cons, Prod.mk.injEq] at h
+      by_cases hk : k' = k
+      · simp only [hk, if_true]
+        rcases h with h | h
+        · rw [h.2]
+        · exact absurd (List.mem_map_of_mem (f := (·.1)) h) (hk ▸ hn.1)
+      · simp only [hk, if_false]
+        rcases h with h | h
+        · exact absurd h.1.symm hk
+        · exact lookup_of_mem_nodup d k v hn.2 h
+
+theorem sizes_eq_map_sizeOf (d : Inputs) (hn : (d.map (·.1)).Nodup) (l : Inputs)
+    (hl : ∀ p ∈ l, p ∈ d) : l.map (·.2) = (l.map (·.1)).map (sizeOf d) := by
+  rw [List.map_map]
+  apply List.map_congr_left
+  intro p hp
+  have := lookup_of_mem_nodup d p.1 p.2 hn (hl p hp)
+  simp [sizeOf, this]
+
+/-- **align_sem / align_inputs_order.**  For a well-formed tensor with distinct input names and a
+    tuple of distinct names among them, `Tensor.align(names)` succeeds; the new inputs are `names`
+    followed by the remaining inputs in their old order, with unchanged sizes; and the value at
+    every named point (any `env`, any event index) is unchanged. -/
+theorem align_sem (t : Tensor α) (names : List String) (hwf : t.WF) (hK : t.keys.Nodup)
+    (hnames : names.Nodup) (hsub : ∀ n ∈ names, n ∈ t.keys) :
+    ∃ t', t.align names = .ok t' ∧
+      t'.keys = names ++ t.keys.filter (fun k => decide (k ∉ names)) ∧
+      (∀ p, p ∈ t'.inputs ↔ p ∈ t.inputs) ∧ t'.dtype = t.dtype ∧
+      t'.data.shape = t'.sizes ++ t.outShape ∧
+      ∀ env ev, ev.length = t.outShape.length → t'.atEnv env ev = t.atEnv env ev := by
+  have hall : (names.all fun n => decide (n ∈ t.keys)) = true := by
+    rw [List.all_eq_true]; intro n hn; exact decide_eq_true (hsub n hn)
+  unfold Tensor.align
+  simp only [hall, Bool.not_true, Bool.false_eq_true, if_false]
+  by_cases hearly : (names.isEmpty || decide (names = t.keys)) = true
+  · -- early return: nothing to do
+    simp only [hearly, if_true]
+    refine ⟨t, rfl, ?_, fun _ => Iff.rfl, rfl, hwf, fun _ _ _ => rfl⟩
+    simp only [Bool.or_eq_true, List.isEmpty_iff, decide_eq_true_eq] at hearly
+    rcases hearly with h | h
+    · simp only [h, List.nil_append, List.not_mem_nil, not_false_eq_true, decide_true]
+      exact (List.filter_eq_self.mpr (fun _ _ => rfl)).symm
+    · rw [h]
+      have : t.keys.filter (fun k => decide (k ∉ t.keys)) = [] := by
+        rw [List.filter_eq_nil_iff]; intro a ha; simp [ha]
+      simp [this]
+  · simp only [hearly, Bool.false_eq_true, if_false]
+    -- the pairs built from `names`
+    obtain ⟨hPk, hPm⟩ := namePairs_spec t.inputs names hsub
+    generalize hP : (names.filterMap fun n => (lookup n t.inputs).map fun s => (n, s)) = P at *
+    have hPn : (P.map (·.1)).Nodup := by rw [hPk]; exact hnames
+    rw [fromPairs_nodup P hPn]
+    have hag : ∀ p ∈ t.inputs, p.1 ∈ P.map (·.1) → p ∈ P := by
+      intro p hp hpk
+      simp only [List.mem_map] at hpk
+      obtain ⟨q, hq, hqk⟩ := hpk
+      have h1 := lookup_of_mem_nodup t.inputs q.1 q.2 hK (hPm q hq)
+      have h2 := lookup_of_mem_nodup t.inputs p.1 p.2 hK hp
+      rw [hqk, h2] at h1
+      have : q = p := Prod.ext hqk (Option.some.inj h1).symm
+      exact this ▸ hq
+    rw [oupdate_spec t.inputs P hK hPn hag]
+    generalize hI : P ++ t.inputs.filter (fun p => decide (p.1 ∉ P.map (·.1))) = I
+    have hIk : I.map (·.1) = names ++ t.keys.filter (fun k => decide (k ∉ names)) := by
+      rw [← hI, List.map_append, hPk]
+      congr 1
+      simp only [Tensor.keys, List.filter_map]
+      rfl
+    have hIm : ∀ p, p ∈ I ↔ p ∈ t.inputs := by
+      intro p
+      rw [← hI]
+      simp only [List.mem_append, List.mem_filter, decide_eq_true_eq]
+      constructor
+      · rintro (h | h)
+        · exact hPm p h
+        · exact h.1
+      · intro h
+        by_cases hp : p.1 ∈ P.map (·.1)
+        · exact Or.inl (hag p h hp)
+        · exact Or.inr ⟨h, hp⟩
+    have hIn : (I.map (·.1)).Nodup := by
+      rw [hIk, List.nodup_append]
+      refine ⟨hnames, hK.sublist List.filter_sublist, ?_⟩
+      intro a ha b hb
+      simp only [List.mem_filter, decide_eq_true_eq] at hb
+      rintro rfl; exact hb.2 ha
+    have hiff : ∀ a, a ∈ I.map (·.1) ↔ a ∈ t.keys := by
+      intro a
+      simp only [Tensor.keys, List.mem_map]
+      constructor
+      · rintro ⟨p, hp, rfl⟩; exact ⟨p, (hIm p).mp hp, rfl⟩
+      · rintro ⟨p, hp, rfl⟩; exact ⟨p, (hIm p).mpr hp, rfl⟩
+    have hlen : (I.map (·.1)).length = t.keys.length :=
+      ((List.perm_ext_iff_of_nodup hIn hK).mpr hiff).length_eq
+    have hshape : t.data.shape = t.keys.map (sizeOf t.inputs) ++ t.outShape := by
+      rw [hwf, Tensor.sizes, sizes_eq_map_sizeOf t.inputs hK t.inputs (fun _ h => h)]; rfl
+    have hperm : (I.map (·.1)).map (fun d => pos d t.keys)
+        ++ List.range' ((I.map (·.1)).map (fun d => pos d t.keys)).length t.outShape.length
+        = axesPerm t.keys (I.map (·.1)) t.outShape.length := by
+      simp [axesPerm]
+    rw [hperm]
+    have hisperm : isPerm (axesPerm t.keys (I.map (·.1)) t.outShape.length) t.data.shape.length
+        = true := by
+      have := axesPerm_isPerm t.keys (I.map (·.1)) t.outShape.length hK hIn hiff hlen
+      rw [hshape]; simpa using this
+    simp only [permute, hisperm, if_true]
+    refine ⟨_, rfl, hIk, hIm, rfl, ?_, ?_⟩
+    · show gather t.data.shape _ = _
+      rw [hshape, gather_axesPerm t.keys (I.map (·.1)) (sizeOf t.inputs) t.outShape
+        (fun a ha => (hiff a).mp ha) hlen]
+      congr 1
+      exact (sizes_eq_map_sizeOf t.inputs hK I (fun p hp => (hIm p).mp hp)).symm
+    · intro env ev hev
+      simp only [Tensor.atEnv]
+      rw [← hev]
+      show t.data.get (gather ((I.map (·.1)).map env ++ ev)
+        (invPerm (axesPerm t.keys (I.map (·.1)) ev.length))) = _
+      rw [gather_invPerm_axesPerm t.keys (I.map (·.1)) env ev hK hIn hiff hlen]
+
+
+/-! ### materialize -/
+
+/-- **materialize_sem.**  Substituting `arange`s for the bounded-integer variables leaves the
+    denoted function unchanged, at every named point. -/
+theorem materialize_sem (ofNat : Nat → α) (ops : Nat → α → α → α) (renv : String → α)
+    (env : String → Nat) : ∀ (t : Term α),
+    (t.materialize ofNat).denote ofNat ops renv env = t.denote ofNat ops renv env
+  | .var n s => by
+      simp [Term.materialize, Term.denote, arange, Tensor.atEnv, Tensor.keys]
+  | .rvar n => rfl
+  | .tensor t => rfl
+  | .binary op l r => by
+      simp only [Term.materialize, Term.denote, materialize_sem ofNat ops renv env l,
+        materialize_sem ofNat ops renv env r]
+
+/-- Free bounded-integer variables of a term. -/
+def intVars : Term α → List String
+  | .var n _ => [n]
+  | .rvar _ => []
+  | .tensor _ => []
+  | .binary _ l r => intVars l ++ intVars r
+
+/-- After `materialize` no lazy integer input is left. -/
+theorem materialize_intVars (ofNat : Nat → α) : ∀ (t : Term α), intVars (t.materialize ofNat) = []
+  | .var _ _ => rfl
+  | .rvar _ => rfl
+  | .tensor _ => rfl
+  | .binary _ l r => by
+      simp [Term.materialize, intVars, materialize_intVars ofNat l, materialize_intVars ofNat r]
+
+/-- The arange tensor is well formed and is the identity on its index. -/
+theorem arange_sem (ofNat : Nat → α) (n : String) (s : Nat) (env : String → Nat) :
+    (arange ofNat n s).WF ∧ (arange ofNat n s).atEnv env [] = ofNat (env n) := by
+  simp [arange, Tensor.WF, Tensor.sizes, Tensor.outShape, Tensor.atEnv, Tensor.keys]
+
+
+/-! ### align_tensor -/
+
+/-- Axes as (kept?, size, index).  Kept axes survive; dropped axes must have size 1. -/
+abbrev Ax := Bool × Nat × Nat
+
+def axKeepSizes (l : List Ax) : List Nat := (l.filter (·.1)).map (·.2.1)
+def axKeepIdx (l : List Ax) : List Nat := (l.filter (·.1)).map (·.2.2)
+def axAllSizes (l : List Ax) : List Nat := l.map (·.2.1)
+def axAllIdx (l : List Ax) : List Nat := l.map fun q => if q.1 then q.2.2 else 0
+
+theorem prod_unsqueeze (es : List Nat) : ∀ (l : List Ax), (∀ q ∈ l, q.1 = false → q.2.1 = 1) →
+    prod (axAllSizes l ++ es) = prod (axKeepSizes l ++ es)
+  | [], _ => rfl
+  | (true, s, i) :: l, h => by
+      have ih := prod_unsqueeze es l (fun q hq => h q (by simp [hq]))
+      simp only [axAllSizes, axKeepSizes, List.map_cons, List.filter_cons, if_true,
+        List.cons_append, prod] at ih ⊢
+      rw [ih]
+  | (false, s, i) :: l, h => by
+      have hs : s = 1 := h (false, s, i) (by simp) rfl
+      have ih := prod_unsqueeze es l (fun q hq => h q (by simp [hq]))
+      simp only [axAllSizes, axKeepSizes, List.map_cons, List.filter_cons, Bool.false_eq_true,
+        if_false, List.cons_append, prod, hs, Nat.one_mul] at ih ⊢
+      exact ih
+
+theorem ravel_unsqueeze (es ev : List Nat) : ∀ (l : List Ax),
+    (∀ q ∈ l, q.1 = false → q.2.1 = 1) →
+    ravel (axAllSizes l ++ es) (axAllIdx l ++ ev) = ravel (axKeepSizes l ++ es) (axKeepIdx l ++ ev)
+  | [], _ => rfl
+  | (true, s, i) :: l, h => by
+      have hl : ∀ q ∈ l, q.1 = false → q.2.1 = 1 := fun q hq => h q (by simp [hq])
+      have ih := ravel_unsqueeze es ev l hl
+      have hp := prod_unsqueeze es l hl
+      simp only [axAllSizes, axKeepSizes, axAllIdx, axKeepIdx, List.map_cons, List.filter_cons,
+        if_true, List.cons_append, ravel] at ih hp ⊢
+      rw [ih, hp]
+  | (false, s, i) :: l, h => by
+      have ih := ravel_unsqueeze es ev l (fun q hq => h q (by simp [hq]))
+      simp only [axAllSizes, axKeepSizes, axAllIdx, axKeepIdx, List.map_cons, List.filter_cons,
+        Bool.false_eq_true, if_false, List.cons_append, ravel, Nat.zero_mul, Nat.zero_add] at ih ⊢
+      exact ih
+
+theorem inb_axKeep : ∀ (l : List Ax), (∀ q ∈ l, q.1 = true → q.2.2 < q.2.1) →
+    inb (axKeepSizes l) (axKeepIdx l) = true
+  | [], _ => rfl
+  | (true, s, i) :: l, h => by
+      have ih := inb_axKeep l (fun q hq => h q (by simp [hq]))
+      have hi : i < s := h (true, s, i) (by simp) rfl
+      simp only [axKeepSizes, axKeepIdx, List.filter_cons, if_true, List.map_cons, inb,
+        Bool.and_eq_true, decide_eq_true_eq] at ih ⊢
+      exact ⟨hi, ih⟩
+  | (false, s, i) :: l, h => by
+      have ih := inb_axKeep l (fun q hq => h q (by simp [hq]))
+      simp only [axKeepSizes, axKeepIdx, List.filter_cons, Bool.false_eq_true, if_false] at ih ⊢
+      exact ih
+
+/-- `clip` is the identity on the event part of an in-bounds index and zeroes exactly the
+    broadcast axes. -/
+theorem clip_inb : ∀ (s i : List Nat), inb s i = true → clip s i = i
+  | [], [], _ => rfl
+  | [], _ :: _, h => by simp [inb] at h
+  | _ :: _, [], h => by simp [inb] at h
+  | s :: ss, i :: is, h => by
+      simp only [inb, Bool.and_eq_true, decide_eq_true_eq] at h
+      simp only [clip, clip_inb ss is h.2]
+      by_cases hs : s = 1
+      · simp only [hs, if_true]; congr 1; omega
+      · simp only [hs, if_false]
+
+
+theorem lookup_none_of_not_mem {β : Type} (k : String) : ∀ (d : List (String × β)),
+    k ∉ d.map (·.1) → lookup k d = none
+  | [], _ => rfl
+  | (k', v') :: d, h => by
+      simp only [List.map_cons, List.mem_cons, not_or] at h
+      have hk : ¬ k' = k := fun e => h.1 e.symm
+      simp only [lookup, hk, if_false]
+      exact lookup_none_of_not_mem k d h.2
+
+def alignAxes (x : Tensor α) (newInputs : Inputs) (env : String → Nat) : List Ax :=
+  newInputs.map fun p => (decide (p.1 ∈ x.keys), sizeOr1 x.inputs p, env p.1)
+
+theorem canExpand_of (out : List Nat) : ∀ (l : List (String × Nat)) (d : Inputs),
+    (∀ p ∈ l, sizeOr1 d p = p.2 ∨ sizeOr1 d p = 1) →
+    canExpand (l.map (sizeOr1 d) ++ out) (l.map (·.2) ++ out) = true
+  | [], d, _ => by
+      induction out with
+      | nil => rfl
+      | cons a as ih => simp [canExpand]; exact ih
+  | p :: l, d, h => by
+      have ih := canExpand_of out l d (fun q hq => h q (by simp [hq]))
+      simp only [List.map_cons, List.cons_append, canExpand, Bool.and_eq_true, Bool.or_eq_true,
+        beq_iff_eq]
+      exact ⟨h p (by simp), ih⟩
+
+theorem clip_alignAxes (x : Tensor α) (env : String → Nat) (out ev : List Nat)
+    (hev : inb out ev = true) : ∀ (l : Inputs),
+    (∀ p ∈ l, env p.1 < p.2) →
+    (∀ p ∈ l, p.1 ∈ x.keys → sizeOr1 x.inputs p = p.2) →
+    (∀ p ∈ l, p.1 ∉ x.keys → sizeOr1 x.inputs p = 1) →
+    clip (l.map (sizeOr1 x.inputs) ++ out) (l.map (fun p => env p.1) ++ ev)
+      = axAllIdx (alignAxes x l env) ++ ev
+  | [], _, _, _ => by simpa [alignAxes, axAllIdx] using clip_inb out ev hev
+  | p :: l, hb, h1, h2 => by
+      have ih := clip_alignAxes x env out ev hev l (fun q hq => hb q (by simp [hq]))
+        (fun q hq => h1 q (by simp [hq])) (fun q hq => h2 q (by simp [hq]))
+      simp only [alignAxes, axAllIdx, List.map_cons, List.cons_append, clip, List.map_map,
+        Function.comp_def] at ih ⊢
+      rw [ih]
+      congr 1
+      by_cases hk : p.1 ∈ x.keys
+      · have hs := h1 p (by simp) hk
+        have hlt := hb p (by simp)
+        simp only [hk, decide_true, if_true]
+        by_cases h1' : sizeOr1 x.inputs p = 1
+        · simp only [h1', if_true]; omega
+        · simp only [h1', if_false]
+      · simp [hk, h2 p (by simp) hk]
+
+
+/-- **alignTensor_sem.**  For a well-formed tensor whose inputs (with their sizes) all occur in the
+    target `new_inputs` (distinct names), `align_tensor(new_inputs, x, expand)` succeeds; its shape
+    is the target sizes (size 1 for inputs `x` lacks, unless `expand`) followed by the event shape;
+    and reading it at any named point of the target (at 0 along un-expanded missing axes) gives
+    the value of `x` at that named point. -/
+theorem alignTensor_sem (x : Tensor α) (newInputs : Inputs) (expand : Bool)
+    (hwf : x.WF) (hK : x.keys.Nodup) (hN : (newInputs.map (·.1)).Nodup)
+    (hsub : ∀ p ∈ x.inputs, p ∈ newInputs) :
+    ∃ r, alignTensor newInputs x expand = .ok r ∧
+      r.shape = (if expand then newInputs.map (·.2) else newInputs.map (sizeOr1 x.inputs))
+        ++ x.outShape ∧
+      ∀ env ev, (∀ p ∈ newInputs, env p.1 < p.2) → inb x.outShape ev = true →
+        r.get (newInputs.map (fun p => if expand || decide (p.1 ∈ x.keys) then env p.1 else 0) ++ ev)
+          = x.atEnv env ev := by
+  -- sizes of the target axes
+  have hsz1 : ∀ p ∈ newInputs, p.1 ∈ x.keys → sizeOr1 x.inputs p = p.2 := by
+    intro p hp hk
+    simp only [Tensor.keys, List.mem_map] at hk
+    obtain ⟨q, hq, hqk⟩ := hk
+    have h1 := lookup_of_mem_nodup newInputs q.1 q.2 hN (hsub q hq)
+    have h2 := lookup_of_mem_nodup newInputs p.1 p.2 hN hp
+    rw [hqk, h2] at h1
+    have h3 := lookup_of_mem_nodup x.inputs q.1 q.2 hK hq
+    simp only [sizeOr1, ← hqk, h3]
+    exact (Option.some.inj h1).symm
+  have hsz0 : ∀ p ∈ newInputs, p.1 ∉ x.keys → sizeOr1 x.inputs p = 1 := by
+    intro p _ hk
+    simp only [sizeOr1, lookup_none_of_not_mem p.1 x.inputs hk]
+  by_cases hearly : x.inputs = newInputs
+  · -- early return
+    refine ⟨x.data, by simp [alignTensor, hearly], ?_, ?_⟩
+    · have hall : newInputs.map (sizeOr1 x.inputs) = newInputs.map (·.2) := by
+        apply List.map_congr_left
+        intro p hp
+        exact hsz1 p hp (by rw [Tensor.keys, hearly]; exact List.mem_map_of_mem hp)
+      rw [hall, hwf, Tensor.sizes, hearly]; simp
+    · intro env ev _ _
+      simp only [Tensor.atEnv, Tensor.keys, ← hearly, List.map_map, Function.comp_def]
+      congr 2
+      apply List.map_congr_left
+      intro p hp
+      have : p.1 ∈ x.inputs.map (·.1) := List.mem_map_of_mem hp
+      simp [Tensor.keys, this]
+  · -- permute, un-squeeze, (expand)
+    let K' := (newInputs.filter fun p => decide (p.1 ∈ x.keys)).map (·.1)
+    have hK'n : K'.Nodup :=
+      hN.sublist (List.Sublist.map _ List.filter_sublist)
+    have hiff : ∀ a, a ∈ K' ↔ a ∈ x.keys := by
+      intro a
+      simp only [K', List.mem_map, List.mem_filter, decide_eq_true_eq]
+      constructor
+      · rintro ⟨p, ⟨_, hp⟩, rfl⟩; exact hp
+      · intro ha
+        have ha' := ha
+        simp only [Tensor.keys, List.mem_map] at ha'
+        obtain ⟨q, hq, rfl⟩ := ha'
+        exact ⟨q, ⟨hsub q hq, ha⟩, rfl⟩
+    have hlen : K'.length = x.keys.length :=
+      ((List.perm_ext_iff_of_nodup hK'n hK).mpr hiff).length_eq
+    have hklen : x.keys.length = x.inputs.length := by simp [Tensor.keys]
+    have hshape : x.data.shape = x.keys.map (sizeOf x.inputs) ++ x.outShape := by
+      rw [hwf, Tensor.sizes, sizes_eq_map_sizeOf x.inputs hK x.inputs (fun _ h => h)]; rfl
+    have hrank : x.data.shape.length - x.inputs.length = x.outShape.length := by
+      rw [hshape]; simp [Tensor.keys]
+    have hperm : (newInputs.filter fun p => decide (p.1 ∈ x.keys)).map (fun p => pos p.1 x.keys)
+        ++ List.range' x.inputs.length (x.data.shape.length - x.inputs.length)
+        = axesPerm x.keys K' x.outShape.length := by
+      simp only [axesPerm, K', List.map_map, Function.comp_def, hrank]
+      rw [← hklen, ← hlen]
+    have hisperm : isPerm (axesPerm x.keys K' x.outShape.length) x.data.shape.length = true := by
+      have := axesPerm_isPerm x.keys K' x.outShape.length hK hK'n hiff hlen
+      rw [hshape]; simpa using this
+    have hshape1 : gather x.data.shape (axesPerm x.keys K' x.outShape.length)
+        = K'.map (sizeOf x.inputs) ++ x.outShape := by
+      rw [hshape, gather_axesPerm x.keys K' (sizeOf x.inputs) x.outShape
+        (fun a ha => (hiff a).mp ha) hlen]
+    -- the un-squeezed view, for an arbitrary env
+    have hkeepS : ∀ env, axKeepSizes (alignAxes x newInputs env) = K'.map (sizeOf x.inputs) := by
+      intro env
+      simp only [axKeepSizes, alignAxes, K', List.filter_map, List.map_map, Function.comp_def]
+      apply List.map_congr_left
+      intro p hp
+      simp only [List.mem_filter, decide_eq_true_eq] at hp
+      obtain ⟨v, hv⟩ := lookup_of_mem_keys p.1 x.inputs hp.2
+      simp [sizeOr1, sizeOf, hv]
+    have hkeepI : ∀ env, axKeepIdx (alignAxes x newInputs env) = K'.map env := by
+      intro env
+      simp only [axKeepIdx, alignAxes, K', List.filter_map, List.map_map, Function.comp_def]
+    have hallS : ∀ env, axAllSizes (alignAxes x newInputs env) = newInputs.map (sizeOr1 x.inputs) := by
+      intro env
+      simp only [axAllSizes, alignAxes, List.map_map, Function.comp_def]
+    have hdrop : ∀ env, ∀ q ∈ alignAxes x newInputs env, q.1 = false → q.2.1 = 1 := by
+      intro env q hq hf
+      simp only [alignAxes, List.mem_map] at hq
+      obtain ⟨p, hp, rfl⟩ := hq
+      simp only [decide_eq_false_iff_not] at hf
+      exact hsz0 p hp hf
+    have hprod : prod (newInputs.map (sizeOr1 x.inputs) ++ x.outShape)
+        = prod (K'.map (sizeOf x.inputs) ++ x.outShape) := by
+      have := prod_unsqueeze x.outShape (alignAxes x newInputs (fun _ => 0)) (hdrop _)
+      rwa [hallS, hkeepS] at this
+    -- value of the reshaped array at the un-squeezed index
+    have hval : ∀ env ev, (∀ p ∈ newInputs, env p.1 < p.2) → inb x.outShape ev = true →
+        x.data.get (gather (unravel (K'.map (sizeOf x.inputs) ++ x.outShape)
+          (ravel (newInputs.map (sizeOr1 x.inputs) ++ x.outShape)
+            (axAllIdx (alignAxes x newInputs env) ++ ev)))
+          (invPerm (axesPerm x.keys K' x.outShape.length))) = x.atEnv env ev := by
+      intro env ev henv hev
+      have hr := ravel_unsqueeze x.outShape ev (alignAxes x newInputs env) (hdrop env)
+      rw [hallS, hkeepS, hkeepI] at hr
+      have hin : inb (K'.map (sizeOf x.inputs) ++ x.outShape) (K'.map env ++ ev) = true := by
+        have := inb_axKeep (alignAxes x newInputs env) (by
+          intro q hq hk
+          simp only [alignAxes, List.mem_map] at hq
+          obtain ⟨p, hp, rfl⟩ := hq
+          simp only [decide_eq_true_eq] at hk
+          simp only [hsz1 p hp hk]
+          exact henv p hp)
+        rw [hkeepS, hkeepI] at this
+        exact inb_append _ _ _ _ this hev
+      rw [hr, unravel_ravel _ _ hin]
+      have hevl : ev.length = x.outShape.length := inb_length _ _ hev
+      rw [← hevl, gather_invPerm_axesPerm x.keys K' env ev hK hK'n hiff hlen]
+      rfl
+    unfold alignTensor
+    simp only [hearly, if_false, hperm, permute, hisperm, if_true, reshape, hshape1, hprod]
+    cases expand with
+    | false =>
+      simp only [Bool.false_eq_true, if_false, Bool.false_or]
+      refine ⟨_, rfl, rfl, ?_⟩
+      intro env ev henv hev
+      have : newInputs.map (fun p => if decide (p.1 ∈ x.keys) = true then env p.1 else 0)
+          = axAllIdx (alignAxes x newInputs env) := by
+        simp only [axAllIdx, alignAxes, List.map_map, Function.comp_def]
+      rw [this]
+      exact hval env ev henv hev
+    | true =>
+      have hce : canExpand (newInputs.map (sizeOr1 x.inputs) ++ x.outShape)
+          (newInputs.map (·.2) ++ x.outShape) = true :=
+        canExpand_of x.outShape newInputs x.inputs (by
+          intro p hp
+          by_cases hk : p.1 ∈ x.keys
+          · exact Or.inl (hsz1 p hp hk)
+          · exact Or.inr (hsz0 p hp hk))
+      simp only [if_true, expandTo, hce, Bool.true_or]
+      refine ⟨_, rfl, rfl, ?_⟩
+      intro env ev henv hev
+      show x.data.get _ = _
+      rw [clip_alignAxes x env x.outShape ev hev newInputs henv hsz1 hsz0]
+      exact hval env ev henv hev
+
+
+/-! ### non-vacuity: the hypotheses are satisfiable, and are needed -/
+
+/-- A 1×2×3 array of distinct entries (row-major arange). -/
+def exX : Arr Nat := ⟨[1, 2, 3], fun idx => ravel [1, 2, 3] idx⟩
+
+/-- `dim_to_name = {-1: "a", -2: "b"}` with event shape `(3,)`: hypotheses of `toFunsor_sem`,
+    `toData_toFunsor_roundtrip` hold (the size-1 axis "b" is squeezed, "a" survives). -/
+example : AllNamed ((axisNames [(-1, "a"), (-2, "b")] 2).zip [1, 2]) ∧
+    ((packedSpec ((axisNames [(-1, "a"), (-2, "b")] 2).zip [1, 2])).map (·.1)).Nodup ∧
+    packedSpec ((axisNames [(-1, "a"), (-2, "b")] 2).zip [1, 2]) = [("a", 2)] := by
+  refine ⟨?_, ?_, ?_⟩
+  · unfold AllNamed; decide
+  · decide
+  · decide
+
+example : (match toFunsor exX (some [3]) none (some [(-1, "a"), (-2, "b")]) with
+    | .ok f => (f.inputs, f.data.shape, f.data.toFlat)
+    | .error _ => ([], [], [])) = ([("a", 2)], [2, 3], [0, 1, 2, 3, 4, 5]) := by decide
+
+example : (match toFunsor exX (some [3]) none (some [(-1, "a"), (-2, "b")]) with
+    | .ok f => (match toData f (some [("a", -1), ("b", -2)]) with
+      | .ok r => (r.shape, r.toFlat)
+      | .error _ => ([], []))
+    | .error _ => ([], [])) = ([2, 3], [0, 1, 2, 3, 4, 5]) := by decide
+
+/-- The hypothesis of `toFunsor_rejects_unnamed` is satisfiable: axis of size 2 without a name. -/
+example : ¬ AllNamed ((axisNames [(-2, "b")] 2).zip [1, 2]) := by unfold AllNamed; decide
+
+/-- **Witness that `dim_to_name ≠ {}` is needed.**  With an empty `dim_to_name` the code takes the
+    `Tensor(x)` branch and insists on `output.shape == x.shape`: a size-1 batch axis is *not*
+    squeezed there although "every batch axis of size ≠ 1 is named" holds vacuously. -/
+theorem toFunsor_empty_d2n_witness :
+    (match toFunsor (⟨[1, 3], fun idx => ravel [1, 3] idx⟩ : Arr Nat) (some [3]) none (some []) with
+      | .ok _ => false | .error e => e == .valueError) = true := by decide
+
+/-- A well-formed tensor with distinct names for `align_sem`: inputs (a:3, b:2), event shape (2). -/
+def exT : Tensor Nat := ⟨[("a", 3), ("b", 2)], ⟨[3, 2, 2], fun idx => ravel [3, 2, 2] idx⟩, none⟩
+
+example : exT.WF ∧ exT.keys.Nodup ∧ ["b"].Nodup ∧ ∀ n ∈ ["b"], n ∈ exT.keys := by
+  refine ⟨by unfold Tensor.WF; decide, by decide, by decide, by decide⟩
+
+example : (match exT.align ["b"] with
+    | .ok t => (t.inputs, t.data.shape, t.data.toFlat)
+    | .error _ => ([], [], [])) = ([("b", 2), ("a", 3)], [2, 3, 2], [0, 1, 4, 5, 8, 9, 2, 3, 6, 7, 10, 11]) := by
+  decide
+
+
+/-- Hypotheses of `alignTensor_sem` are satisfiable: `exT` (a:3, b:2) into the target (b, z, a). -/
+example : (∀ p ∈ exT.inputs, p ∈ [("b", 2), ("z", 4), ("a", 3)]) ∧
+    (([("b", 2), ("z", 4), ("a", 3)] : Inputs).map (·.1)).Nodup := by
+  refine ⟨by decide, by decide⟩
+
+example : (match alignTensor [("b", 2), ("z", 4), ("a", 3)] exT false with
+    | .ok r => (r.shape, r.toFlat)
+    | .error _ => ([], [])) = ([2, 1, 3, 2], [0, 1, 4, 5, 8, 9, 2, 3, 6, 7, 10, 11]) := by decide
 
 
 end FV.Props.C19
